@@ -102,6 +102,8 @@ void CommonLoop::runThisAfterLoop()
         CHECK_DELETE_RESET_OBJ(sp_run_read_event_);
         CHECK_CLOSE_RESET_FD(run_event_fd_);
     }
+    //! a wake-up request still outstanding belongs to the eventfd closed above; the next run starts with none
+    has_commit_run_req_ = false;
 }
 
 void CommonLoop::beginLoopProcess()
